@@ -39,7 +39,22 @@ func TestVerif(t *testing.T) {
 			os.Stdout = f
 		}
 	}
-	vt.Main(t, verifChecks)
+	wrapped := map[string]vt.Check{}
+	for k, c := range verifChecks {
+		c := c
+		wrapped[k] = func(r *vt.Run) {
+			c(r)
+			// engine conditions that must never pass silently
+			if TickCuts > 0 {
+				r.Add("step_mode_ticks_cut_at_unstable_state", TickCuts)
+			}
+			if StepBudgetAborts > 0 {
+				r.Add("engine_step_budget_aborts", StepBudgetAborts)
+				r.Note(fmt.Sprintf("%d executions hit the livelock step budget and were aborted (first: %s)", StepBudgetAborts, firstAbort))
+			}
+		}
+	}
+	vt.Main(t, wrapped)
 }
 
 const vns = "/test"
@@ -112,8 +127,18 @@ func Bubble(t *testing.T, spec Spec, f func(h *H)) {
 		h := &H{T: t, W: sim.NewWorld(), Spec: spec, Apps: map[string]*App{}, inc: map[string]int{}, ids: map[*App]string{}, hc: map[*App]*hcState{}}
 		defer h.teardown()
 		f(h)
+		if h.W.Aborted != "" {
+			if StepBudgetAborts == 0 {
+				firstAbort = h.W.Aborted
+			}
+			StepBudgetAborts++
+		}
 	})
 }
+
+// StepBudgetAborts counts executions aborted by the world's livelock budget.
+var StepBudgetAborts int
+var firstAbort string
 
 func (h *H) teardown() {
 	h.W.Chooser = nil
@@ -310,7 +335,12 @@ func tickBody(a *App) {
 		stateLost:        a.stateLost,
 		stateMaintenance: a.stateMaintenance,
 	}
-	for {
+	// Run() repeats handlers until the state is stable. One reachable situation never stabilises:
+	// a candidate in full maintenance whose key says should_leave while the manager has not left
+	// yet flips stateMaintenance <-> stateCandidate without sleeping (DESIGN.md section 10,
+	// observation O1). Every round of that loop is identical, so the step-mode tick stops after
+	// tickMaxHandlers handler calls; the count of cut ticks is reported (TickCuts).
+	for n := 0; ; n++ {
 		stateHandler := handlers[a.state]
 		if stateHandler == nil {
 			panic(fmt.Sprintf("unknown state: %s", a.state))
@@ -320,8 +350,17 @@ func tickBody(a *App) {
 			break
 		}
 		a.state = nextState
+		if n >= tickMaxHandlers {
+			TickCuts++
+			break
+		}
 	}
 }
+
+const tickMaxHandlers = 12
+
+// TickCuts counts step-mode ticks that were cut because the state never stabilised.
+var TickCuts int
 
 // Health runs one body of healthChecker.
 func (h *H) Health(a *App) {
